@@ -233,7 +233,7 @@ def check(ctx):
         iv.on_call = None
         return ch[0]
 
-    for rnd in range(40):
+    for rnd in range(200):
         if not run_round(param_in, param_in, True):
             break
     else:
